@@ -77,19 +77,30 @@ def run_one(eng, M, gridname, sigma, hist_len, fail, concrete=None):
     sigma = sigmas[0]
     sm, tm, glued = GRIDS19[gridname]
     n_t, n_x = len(tm), len(sm)
+    # order '<...>-v': the deep staircase, explored with w = v*v so that every power of w the code may form is a monomial
+    use_v = (isinstance(hist_len, (tuple, list)) and str(hist_len[4]).endswith('-v')) or (
+        len(sigmas) > 1 and any(Fraction(sg).denominator == 2 for sg in sigmas))   # two different powers of w in one run
     if concrete:
         w, tau = concrete['w'], concrete['tau']
         xs, ts = cumul(sm, w), cumul(tm, tau)
         mesh = M.Mesh(glue_space=glued, initial_space_mesh=xs, initial_time_mesh=ts)
         mesh._vf = dict(ts=[SR.lift(t) for t in ts], xs=[SR.lift(x) for x in xs], n_t=n_t, n_x=n_x, glued=glued)
     else:
-        w, tau = eng.real('w'), eng.real('tau')
+        if use_v:
+            # w = v*v: every power w**(n/2) is a monomial in v (non-linear queries; used for the deep staircase only)
+            v = eng.real('v')
+            eng.assume(v >= Fraction(1, 2))   # w in [1/4, 4]: bounds the sweeps for ANY exponent the code may use
+            eng.assume(v <= 2)
+            eng.split_const_sqrt = True
+            w, tau = v * v, eng.real('tau')
+        else:
+            w, tau = eng.real('w'), eng.real('tau')
         eng.assume(w > 0)
         eng.assume(tau > 0)
         # bounded parabolic ratio of the unit cell => bounded number of sweeps
         ratio = RATIO_DIRECTED if (isinstance(hist_len, (tuple, list)) or len(sigmas) > 1) else RATIO
         for sg in sigmas:
-            if Fraction(sg).denominator == 2:
+            if Fraction(sg).denominator == 2 and not use_v:
                 # w**(n/2) is a fresh positive atom: no comparison relates it to w other than through h_x**sigma
                 pw = eng.real('pw_%d_2' % Fraction(sg).numerator)
                 eng.assume(pw > 0)
@@ -105,7 +116,8 @@ def run_one(eng, M, gridname, sigma, hist_len, fail, concrete=None):
         # point-directed history (what adaptive refinement towards a singular corner produces): ks space bisections
         # and kt time bisections of the leaf that contains a point just inside a corner of a root cell
         _, corner, ks, kt, order = hist_len
-        hist = ['directed', corner, ks, kt, order]
+        order = order[:-2] if order.endswith('-v') else order
+        hist = ['directed', corner, ks, kt, hist_len[4]]
         from fractions import Fraction as F
         eps = F(1, 2**30)
         root_j, root_i, top, right = corner
@@ -141,9 +153,11 @@ def replay(rp):
     M = c02.load_mesh_module()
     vals = rp.get('values') or {}
     try:
-        w, tau = float(Fraction(vals['w'])), float(Fraction(vals['tau']))
+        w, tau = float(Fraction(vals.get('w', '1'))), float(Fraction(vals['tau']))
         sg0 = rp['sigma'][0] if isinstance(rp['sigma'], (list, tuple)) else rp['sigma']
-        if Fraction(sg0).denominator == 2:
+        if 'v' in vals:
+            w = float(Fraction(vals['v']))**2
+        elif Fraction(sg0).denominator == 2:
             # the model fixes w**sigma (atom pw_n_2), not w
             w = float(Fraction(vals['pw_%d_2' % Fraction(sg0).numerator]))**(1 / float(sg0))
     except Exception:
@@ -283,12 +297,16 @@ def run(out):
                 for (ks, kt) in depth:
                     for order in (('space-first', ) if quick else ('space-first', 'time-first', 'alternate')):
                         cases.append((g, sigma, ('directed', corner, ks, kt, order), (), out.seed))
+    # the deep isotropic staircase (8 + 8 bisections towards a point of t = 0): the shallowest mesh on which, for
+    # sigma = 3/2, the closure of a time refinement bisects an element queued for space refinement
+    for g, corner in ((('sq3g', (0, 1, 0, 0)), ) if quick else (('sq3g', (0, 1, 0, 0)), ('L3g', (0, 1, 0, 0)), ('sq3g', (0, 0, 0, 1)))):
+        cases.append((g, 1.5, ('directed', corner, 8, 8, 'alternate-v'), (), out.seed))
     results = report.pmap('checks.c19', 'worker', cases)
     for c, r in zip(cases, results):
         report.merge_worker(out, r, part='%s sigma=%s%s' % (c[0], c[1], '' if isinstance(c[2], int) else ' directed'))
     out.bounds = dict(grids={g: dict(space_cells_in_units_of_w=GRIDS19[g][0], slabs_in_units_of_tau=GRIDS19[g][1],
                                      glued=GRIDS19[g][2]) for g in cfg['grids']}, history_before_grading=cfg['hist'],
-                      directed_histories='ks <= 4 space and kt <= 6 time bisections of the leaf at a corner point of a root cell (%s)' % ('(4,6), space first, corners at t = 0' if quick else 'ten (ks,kt) combinations, three orders, all corners'), sigma=cfg['sigmas'], K=K,
+                      directed_histories='ks <= 4 space and kt <= 6 time bisections of the leaf at a corner point of a root cell (%s); plus the isotropic staircase 8 + 8 for sigma = 3/2 with w = v^2, 1/2 <= v <= 2' % ('(4,6), space first, corners at t = 0' if quick else 'ten (ks,kt) combinations, three orders, all corners'), sigma=cfg['sigmas'], K=K,
                       root_ratio='w, tau symbolic with 1/%d <= w^sigma/tau <= %d (bounds the sweeps); 1/%d .. %d for the directed histories' % (RATIO, RATIO, RATIO_DIRECTED, RATIO_DIRECTED),
                       decisions_per_path=6000)
     out.outside = ['exponents other than 1, 3/2, 2', 'unit-cell ratios beyond the stated window',
